@@ -359,7 +359,16 @@ def job_record(k_extra, directio, nblocks, bpf, nant, template, prior=None):
     with volt_patches(opener=fs.open, globber=type('G', (), {'glob': staticmethod(lambda pat: fs.glob(pat))})):
         be, ant, ws = C02.build(4, 2, 2, 1, 2, nant, 8, 0, 2, bpf)
         if prior:
-            be.record('/mem/prior', num_blocks=2, length_mode='num_blocks', header_dict=user_cards(prior[0], prior[1], prior[2]), digitize=True, verbose=False, load_template=prior[2])
+            # the earlier recording stands at the SAME stem, is looked at by the readers, and is then replaced
+            be.record('/mem/out', num_blocks=2, length_mode='num_blocks', header_dict=user_cards(prior[0], prior[1], prior[2]), digitize=True, verbose=False, load_template=prior[2])
+            for nm in [n_ for n_ in fs.names() if n_.startswith('/mem/out.')]:
+                RU.read_header(nm)
+                RU.get_blocks_in_file(nm)
+            RU.get_total_blocks('/mem/out')
+            RU.get_raw_params('/mem/out', start_chan=0)
+            for nm in [n_ for n_ in fs.names() if n_.startswith('/mem/out.')]:
+                fs.files.pop(nm, None)
+                fs.files.pop('__flat__' + nm, None)
         try:
             be.record('/mem/out', num_blocks=nblocks, length_mode='num_blocks', header_dict=user, digitize=True, verbose=False, load_template=template)
         except Exception as e:
@@ -502,7 +511,12 @@ def replay_record(p):
         stem = os.path.join(d, 'o')
         if p.get('prior'):
             pr = p['prior']
-            be.record(os.path.join(d, 'prior'), num_blocks=2, length_mode='num_blocks', header_dict=user_cards(pr[0], pr[1], pr[2]), digitize=True, verbose=False, load_template=pr[2])
+            be.record(stem, num_blocks=2, length_mode='num_blocks', header_dict=user_cards(pr[0], pr[1], pr[2]), digitize=True, verbose=False, load_template=pr[2])
+            for f_ in sorted(os.listdir(d)):
+                ru.read_header(os.path.join(d, f_))
+                ru.get_blocks_in_file(os.path.join(d, f_))
+            ru.get_total_blocks(stem)
+            ru.get_raw_params(stem, start_chan=0)
             for f_ in os.listdir(d):
                 os.remove(os.path.join(d, f_))
         be.record(stem, num_blocks=nblocks, length_mode='num_blocks', header_dict=user, digitize=True, verbose=False, load_template=p['template'])
